@@ -279,7 +279,7 @@ class String:
                             r = r.simple_form
                         result.append(r)
                     except ParseError as m:
-                        self.parse_error(m.args[0], stag, text, l_)
+                        self.parse_error(m.args[0], stag, text, sloc)
 
                     return start
 
